@@ -3,7 +3,8 @@ from .. import normcheck, normflow
 
 THEOREMS = ["C05_keeps", "C05_keeps_meta_needs", "C05_appends", "C05_completion_value", "C05_no_pooling",
             "C05_no_use_no_completion", "C05_sort_perm", "C05_sort_stable", "C05_completion_twice_changes_nothing",
-            "C05_normalize_idempotent", "C05_read_components_are_normalized"]
+            "C05_normalize_idempotent", "C05_read_components_are_normalized",
+            "C05_normalized_production", "C05_completed_value", "C05_completed_value_without_production"]
 
 
 def run(tier, seed):
